@@ -284,6 +284,16 @@ def snappass (a : Args) : Option String := do
   let ordfree := r == showPass (SnapL.snapPass .desc t (t * mk) polys traces)
   some s!"{r} crisp={showBool crisp} ordfree={showBool ordfree}"
 
+/-- two variants of the pass (other candidate order / thresholds scaled by 1 ± 1e-6) agree with the reference
+pass at EVERY step of the reference trajectory, not just in the final result -/
+def passesAgree (f g : List Polyline → Except String (List Polyline × Bool)) : Nat → List Polyline → Bool
+  | 0, _ => true
+  | fuel + 1, tr =>
+    match f tr, g tr with
+    | .ok (a, ch), .ok (b, ch') => a == b && ch == ch' && (if ch then passesAgree f g fuel a else true)
+    | .error e, .error e' => e == e'
+    | _, _ => false
+
 def showLoop (r : Except String (List Polyline × Nat)) : String :=
   match r with
   | .error e => s!"err={e}"
@@ -299,8 +309,10 @@ def snaploop (a : Args) : Option String := do
   let k1 : Rat := 1000001 / 1000000
   let k0 : Rat := 999999 / 1000000
   let r := showLoop (SnapL.snapLoop .asc t (t * 20) polys allowed traces)
-  let crisp := r == showLoop (SnapL.snapLoop .asc (t * k1) (t * k1 * 20) polys allowed traces) && r == showLoop (SnapL.snapLoop .asc (t * k0) (t * k0 * 20) polys allowed traces)
-  let ordfree := r == showLoop (SnapL.snapLoop .desc t (t * 20) polys allowed traces)
+  let ref := SnapL.snapPass .asc t (t * 20) polys
+  let crisp := passesAgree ref (SnapL.snapPass .asc (t * k1) (t * k1 * 20) polys) (allowed + 2) traces &&
+    passesAgree ref (SnapL.snapPass .asc (t * k0) (t * k0 * 20) polys) (allowed + 2) traces
+  let ordfree := passesAgree ref (SnapL.snapPass .desc t (t * 20) polys) (allowed + 2) traces
   let quiet := SnapL.quietMap .asc t (t * 20) traces
   some s!"{r} crisp={showBool crisp} ordfree={showBool ordfree} quiet={showBool quiet}"
 
